@@ -68,4 +68,8 @@ def run(ctx, ck):
     ok = txt == ['[1, np.sign(self.idx_2)]', '[np.sign(self.idx_1), 1]']
     ck.ob('R-SIB.add-conn', g.qual + '|pulse-signs', ok, g.loc(),
           'junction pulse sign vectors: %s' % txt)
+    from ._sym import check_ground_symmetry
+    ck.rule('R-SYM.ground-halves', 'statements selecting one half of the ground flags select the other too')
+    nsel, nst = check_ground_symmetry(ctx, ck)
+    ck.floor('statements selecting a half of the ground flags', nst, 3)
     ck.undecided += ['numeric equality under wire reversal / reordering / splitting']
